@@ -205,6 +205,12 @@ func runCone(w *World, cs *Contracts, cone *Cone, tier string, seed int, outDir 
 				}
 			}
 		}
+		if len(e.unsupported) > 0 {
+			// the function could not be encoded under its contract (a name of the contract no longer exists, an
+			// unmodelled construct): obligations after that point were never generated, so no class filter may hide
+			// it - every cone that contains the function gets this one failing obligation
+			obls = append(obls, &Obligation{Name: n + "#encode:unsupported", Func: n, Class: "wexist", Desc: e.unsupported[0], Goal: "false"})
+		}
 		bg := e.Background()
 		for _, o := range obls {
 			if o.Class == "wexist" {
